@@ -1,21 +1,35 @@
-from lib.core import Kani, Fn
+import os
+from lib.core import Kani, Verus, Fn, VERUS_DIR
+from lib import vx
+from verus import c46_id_text as it
+
+
+def build_it():
+    text, located, dropped, raws = it.build()
+    d = os.path.join(VERUS_DIR, 'c46_id_text')
+    os.makedirs(d, exist_ok=True)
+    vx.write_diff(raws, os.path.join(d, 'repo_vs_verified.diff'))
+    return text, located, dropped
 
 PROPERTY = 'C46'
 LEVEL = 'proof'
 M = 'command::verif_kani::'
 RT = dict(crate='aranya-runtime', features='testing,libc')
-HARNESS_FILES = ['kani/aranya-runtime/command.rs']
+HARNESS_FILES = ['kani/aranya-runtime/command.rs', 'verus/c46_id_text.py']
 UNITS = [
+    Verus('c46_id_text', build_it, min_verified=4,
+          contract='Id::decode / FromStr::from_str (extracted): the id layer adds nothing to the base58 codec — decode(s) succeeds exactly when spideroak_base58::String32::decode accepts the WHOLE input, '
+                   'and then holds exactly the 32 bytes it returned'),
     Kani(M + 'c46_cmd_id_postcard_roundtrip', fns=[Fn('crates/aranya-id/src/id.rs', 'serialize', r'impl<Tag> Serialize for Id<Tag>')],
          contract='for all 2^256 ids: postcard serialization is 33 bytes (length prefix 32) and deserializes to the same id; every other length prefix < 40 is rejected', **RT),
 ]
 TRUSTED = ['postcard / serde are compiled and executed as they are']
-ASSUMPTIONS = ['base58 text round trip (Display / FromStr, human-readable serde) is NOT decided: the inverse law of spideroak-base58 (external crate) is an assumed dependency contract; '
+ASSUMPTIONS = ['base58 text round trip (Display / FromStr, human-readable serde): the inverse law of spideroak-base58 (external crate) is an assumed dependency contract; the id layer is proved to delegate the whole input to it (decode / from_str); Display / to_base58 / the serde visitors are not under contract; '
                'symbolic execution of the bignum base conversion did not finish in 7 min',
                'checked on CmdId (a custom_id! wrapper over aranya_id::Id) through the runtime crate, where postcard is a normal dependency']
 EXPLANATION = 'Binary serde path of the id type proved over all 32-byte values.'
 MANIFEST = {
-    'text': 'Proof of the binary serde path over all 2^256 ids (serialize -> 33 bytes -> same id; wrong length prefixes rejected). The base58 text path rests on the external base58 crate and is not decided.',
+    'text': 'Proof of the binary serde path over all 2^256 ids (serialize -> 33 bytes -> same id; wrong length prefixes rejected), and of the text path as a pure delegation: Id::decode / from_str accept exactly what the external base58 codec accepts on the whole input and keep its bytes. The codec\'s own inverse law is assumed.',
     'note': 'Partial: binary path only. base58 inverse law assumed.',
-    'technique': 'Kani contract harness over the full id domain + CBMC',
+    'technique': 'Kani contract harness over the full id domain (CBMC) + Verus on the extracted Id::decode / from_str',
 }
